@@ -265,7 +265,17 @@ def gen_spec(r, max_n=6, max_m=6, id_classes=None, value_classes=None,
     """A random table spec; records the generator classes it belongs to."""
     if shape is None:
         pick = r.random()
-        if pick < .08:
+        if pick > .955 and max_n >= 5 and max_m >= 5:
+            # occasional medium / large axes: mechanisms that depend on the
+            # number of ids (hash-table growth, multi-digit positions,
+            # width of id arrays) are invisible on 7x7 tables
+            hi = r.choice([12, 20, 40, 70])
+            n, m = r.randint(8, hi), r.randint(8, hi)
+            if r.random() < .3:
+                n = r.randint(1, 3)
+            elif r.random() < .3:
+                m = r.randint(1, 3)
+        elif pick < .08:
             n, m = 1, 1
         elif pick < .18:
             n, m = 1, r.randint(min_m, max_m)
@@ -295,7 +305,8 @@ def gen_spec(r, max_n=6, max_m=6, id_classes=None, value_classes=None,
     obs_md = gen_metadata(r, obs_ids, ok, allow_empty_text)
     samp_md = gen_metadata(r, samp_ids, sk, allow_empty_text)
     ttype = r.choice(TABLE_TYPES + [None, None]) if types else None
-    classes = {'shape': '%dx%d' % (n, m), 'ids_obs': idc_o, 'ids_samp': idc_s,
+    classes = {'shape': '%dx%d' % (n, m), 'size': 'big' if max(n, m) > 7
+               else 'small', 'ids_obs': idc_o, 'ids_samp': idc_s,
                'values': vclass, 'density': dens, 'force': force,
                'md_obs': ok, 'md_samp': sk,
                'allzero': not D.any()}
